@@ -4,6 +4,7 @@ package main
 
 import (
 	"fmt"
+	"go/constant"
 	"go/token"
 	"go/types"
 	"sort"
@@ -601,6 +602,20 @@ func (a *A) ruleLatePolicy(W *types.Named, add *ssa.Function) {
 				"dropLastRow() is reached only after IsEventTimeLate(ts) returned true",
 				"dropLastRow() can be reached for a row that is not late: an on-time row would be discarded")
 		}
+		// the placement of a late row may live in a helper method of W that Add calls: the drop inside it
+		// is guarded there, or every call of the helper in Add is
+		allInstrs(add, func(in ssa.Instruction) {
+			h := staticCallee(in)
+			if h == nil || h == drop || h.Blocks == nil || h.Signature.Recv() == nil || !types.Identical(derefT(h.Signature.Recv().Type()), W) {
+				return
+			}
+			callGuarded := guardedByCall(in.Block(), isLate, true) || guardedByValue(in.Block(), isTsOk, false) || a.guardedByLateFlag(in.Block(), isLate)
+			for _, c := range callsTo(h, drop) {
+				a.Check(callGuarded || guardedByCall(c.Block(), isLate, true), fname(add)+"#drop-only-late", c.Pos(),
+					"dropLastRow() (in "+h.Name()+", called from Add) is reached only after IsEventTimeLate(ts) returned true",
+					"dropLastRow() in "+fname(h)+" can be reached for a row that is not late: an on-time row would be discarded")
+			}
+		})
 	}
 	// returns without insertion: insertion = store to W.data (tumbling/sliding) or append into a session
 	insert := a.insertionInstrs(W, add)
@@ -1118,6 +1133,11 @@ func (a *A) ruleBufferArrivalOrder(W *types.Named) {
 							a.Ok(construct, x.Pos(), "element of a range loop over the whole buffer")
 							return
 						}
+						// for i := 0; i < len(buffer); i++ { ... buffer[i] ... }: the same full scan
+						if l.Index != nil && x.Index == l.Index && l.X != nil && isBufLoad(l.X) {
+							a.Ok(construct, x.Pos(), "element of an index loop over the whole buffer (0 .. len-1)")
+							return
+						}
 					}
 				}
 				onlyStores := len(*x.Referrers()) > 0
@@ -1161,7 +1181,7 @@ func (a *A) isMoveBackForAcceptedRow(fn *ssa.Function, st *ssa.Store, W *types.N
 	wmF := a.FieldOf(W, "watermark")
 	isBefore := func(v ssa.Value) bool {
 		cc, ok := v.(*ssa.Call)
-		if !ok || calleeFull(&cc.Call) != "(time.Time).Before" || cc.Call.Args[0] != ts {
+		if !ok || calleeFull(&cc.Call) != "(time.Time).Before" || resolveBound(cc.Call.Args[0]) != ts {
 			return false
 		}
 		t := TermOf(cc.Call.Args[1], nil)
@@ -1169,7 +1189,7 @@ func (a *A) isMoveBackForAcceptedRow(fn *ssa.Function, st *ssa.Store, W *types.N
 	}
 	isLate := func(v ssa.Value) bool {
 		cc, ok := v.(*ssa.Call)
-		return ok && cc.Call.StaticCallee() != nil && cc.Call.StaticCallee().Name() == "IsEventTimeLate" && len(cc.Call.Args) == 2 && cc.Call.Args[1] == ts
+		return ok && cc.Call.StaticCallee() != nil && cc.Call.StaticCallee().Name() == "IsEventTimeLate" && len(cc.Call.Args) == 2 && resolveBound(cc.Call.Args[1]) == ts
 	}
 	isNoWatermark := func(v ssa.Value) bool {
 		bo, ok := v.(*ssa.BinOp)
@@ -1426,4 +1446,34 @@ func (a *A) ruleEvictedResultCounted(W *types.Named) int {
 		})
 	}
 	return n
+}
+
+// guardedByLateFlag: block b is guarded (true sense) by a boolean that is false unless a call accepted
+// by isLate returned true: `isLate := a && b && wm.IsEventTimeLate(ts); if isLate {` — the flag is a phi
+// whose only non-false edges carry the call's result.
+func (a *A) guardedByLateFlag(b *ssa.BasicBlock, isLate func(*ssa.Function) bool) bool {
+	for _, g := range guardsOf(b) {
+		if !g.Sense {
+			continue
+		}
+		phi, ok := g.Cond.(*ssa.Phi)
+		if !ok {
+			continue
+		}
+		ok2, saw := true, false
+		for _, e := range phi.Edges {
+			if k, isK := e.(*ssa.Const); isK && k.Value != nil && k.Value.Kind() == constant.Bool && !constant.BoolVal(k.Value) {
+				continue
+			}
+			if c, isC := e.(*ssa.Call); isC && c.Call.StaticCallee() != nil && isLate(c.Call.StaticCallee()) {
+				saw = true
+				continue
+			}
+			ok2 = false
+		}
+		if ok2 && saw {
+			return true
+		}
+	}
+	return false
 }
